@@ -66,6 +66,7 @@ def base_models():
     sp["teams"][0]["workers"][1]["share_logs_with"] = "W0"  # a clone made with copy.copy shares its template's log lists
     out.append(sp)
     out.append(F.shared_child_spec())
+    out.append(F.with_teams({"tasks": [{"name": "T0", "work": 2.0, "progress": 1.0}, {"name": "T1", "work": 2.0, "progress": 0.5}, {"name": "T2", "work": 1.0}], "links": [[0, 2, "FS"]]}, "POOL2"))  # done / half done
     out.append(F.team_hierarchy_spec())
     out += [sp for sp in F.scale_specs() if sp["label"] in ("scale:layers3x4", "scale:8components")]  # 12 tasks in three teams; 8 components and 10 machines  # three nested teams / workplaces, one workplace without any facility
     # automatic task with a half-integer rate (remaining work crosses zero between steps) next to worked tasks
